@@ -597,7 +597,7 @@ func areaOP(op *OutPt) float64 {
 		area += float64(op2.prev.pt.Y+op2.pt.Y) * float64(op2.prev.pt.X-op2.pt.X)
 		op2 = op2.next
 
-		if op2 != op {
+		if op2 == op {
 			break
 		}
 	}
